@@ -41,7 +41,10 @@ def main():
 
     def one(it):
         kind, name, patch, props, expect = it
-        _, out = try_patches.run_one(patch, props)
+        try:
+            _, out = try_patches.run_one(patch, props)
+        except Exception as e:      # noqa: BLE001 - a helper failure is reported as such, never as a verdict
+            return name, "CHECK-ERROR", "ERROR: %r" % (e,)
         text = "\n".join(out)
         if "PATCH-DOES-NOT-APPLY" in text:
             return name, "PATCH-DOES-NOT-APPLY", text
